@@ -51,6 +51,10 @@ class C07(Driver):
                 ends += ["timeout", "timeout"]
             if kind in ("select", "selectg", "gather"):
                 ends += ["other", "other"]
+            if kind in ("read", "chunk"):
+                # another fiber already waits to read this stream: the operation is refused at once, and whatever
+                # it armed before (its timeout) must go with it
+                ends += ["refused"]
             if kind not in ("gather", "accept"):
                 # the wait is issued under a C -> Janet callback: its suspension is coerced to an error at once,
                 # whatever it registered (timer, channel entry, listener, process/thread wait) is abandoned
@@ -70,7 +74,7 @@ class C07(Driver):
                 st["late"] = 1
                 if r.random() < 0.4:
                     st["via_label"] = 1     # the body leaves through a user signal (return to a label), not by returning
-            if end == "timeout":
+            if end in ("timeout", "refused"):
                 st["timeout"] = dur
             if kind in ("read", "chunk"):
                 st["n"] = r.choice([1, 5, 64]) if kind == "read" else r.choice([4, 16])
@@ -126,7 +130,7 @@ class C07(Driver):
                 # abandoned takers queued on this step's channel before the victim gets there
                 st["prestale"] = [r.choice(["cancel", "select"]) for _ in range(r.randint(1, 3))]
             steps.append(st)
-            t += 0 if end == "cframe" else dur
+            t += 0 if end in ("cframe", "refused") else dur
         p = {}
         if r.random() < 0.5:
             for k in ("eintr_r", "eagain_r", "eagain_w", "short_r", "epoll_eintr", "epoll_delay", "epoll_reorder", "clock_jump"):
@@ -162,6 +166,9 @@ class C07(Driver):
                 # fill the pipe exactly to its capacity so that the victim's write has to wait
                 A("  (ev/write (P [%d :w]) (sim/fill %d 0 4096))" % (i, 50 + i))
         for st in steps:
+            if st["end"] == "refused":
+                A("  (ev/go (fn [] (protect (ev/read (P [%d :r]) 1)))) (ev/sleep 0)" % st["i"])
+        for st in steps:
             for j, how in enumerate(st.get("prestale", [])):
                 i = st["i"]
                 if how == "cancel":
@@ -183,10 +190,13 @@ class C07(Driver):
             if k == "selectg":
                 return "(let [r (ev/select [(CH [%d 0]) %d] (CH [%d 1]))] [(r 0) (cid (r 1)) (get r 2)])" % (i, i * 1000 + 7, i)
             to = " @\"\" %s" % (st["timeout"] / 1000.0) if "timeout" in st else ""
+            # (in a "refused" plan the fiber that occupies the stream may have consumed the first byte before a late
+            # victim gets there: the victim's bytes then start at offset 1)
+            mt = "(sim/match %d 0 b)" % (50 + i) if st["end"] != "refused" else "(max (sim/match %d 0 b) (sim/match %d 1 b))" % (50 + i, 50 + i)
             if k == "read":
-                return "(let [b (ev/read (P [%d :r]) %d%s)] (if b [:bytes (length b) (sim/match %d 0 b)] :eof))" % (i, st["n"], to, 50 + i)
+                return "(let [b (ev/read (P [%d :r]) %d%s)] (if b [:bytes (length b) %s] :eof))" % (i, st["n"], to, mt)
             if k == "chunk":
-                return "(let [b (ev/chunk (P [%d :r]) %d%s)] (if b [:bytes (length b) (sim/match %d 0 b)] :eof))" % (i, st["n"], to, 50 + i)
+                return "(let [b (ev/chunk (P [%d :r]) %d%s)] (if b [:bytes (length b) %s] :eof))" % (i, st["n"], to, mt)
             if k == "write":
                 to2 = " %s" % (st["timeout"] / 1000.0) if "timeout" in st else ""
                 return "(do (ev/write (P [%d :w]) (sim/fill %d 4096 100)%s) :wrote)" % (i, 50 + i, to2)
@@ -370,6 +380,8 @@ class C07(Driver):
             elif cls == "timeout":
                 ok = "timeout" in st and dt >= (st["timeout"] - 1) * 1000000
                 why = "this wait has no timeout" if "timeout" not in st else "timeout fired early"
+            elif st["end"] == "refused" and cls == "error" and "already waiting" in payload:
+                ok = True
             elif st["end"] == "cframe" and cls == "error" and ("coerced from await" in payload or
                                                                  ("channel inside janet_call" in payload and kind in ("take", "give", "select", "selectg"))):
                 ok = True       # (channel operations refuse to start under a C frame: nothing is registered)
